@@ -1318,16 +1318,17 @@ def classify(deck, meta, failure):
 COV = None      # line-coverage tracer (c06_cov.LineCov) of the current run
 
 
-def run_deck(deck, args, trace=False):
+def run_deck(deck, args, trace=False, text=None):
     '''(conv, records of develop_lattice calls)'''
     records = []
+    if text is None:
+        text = deckmod.render(deck)
     with spy_develop(records):
         if trace and COV is not None:
             with COV:
-                conv = impl.convert(deckmod.render(deck), args,
-                                    keep_stdout=False)
+                conv = impl.convert(text, args, keep_stdout=False)
         else:
-            conv = impl.convert(deckmod.render(deck), args, keep_stdout=False)
+            conv = impl.convert(text, args, keep_stdout=False)
     return conv, records
 
 
@@ -1365,7 +1366,12 @@ def deck_stream(res, rng, quick):
         if broken:
             fault = c06_gen.break_deck(gen_rng if forced_fault else rng, deck,
                                        meta, forced_fault)
-        text = deckmod.render(deck)
+        # FILL arrays written with the repeat shorthand (u nR), followed on the
+        # card by TRCL / IMP keywords: the corpus alternates, 35 % otherwise
+        text, short = c06_gen.render_text(
+            deck, rng, shorthand=(k % 2 == 0) if k < len(corpus) else None)
+        if short:
+            res.count('FILL array written with the nR shorthand')
         # conversion options: pot_fill builds the geometry of a filled element
         # differently under the inlining options (the filler's tree is inlined
         # AFTER its fill transformation / element translation); the corpus
@@ -1383,7 +1389,8 @@ def deck_stream(res, rng, quick):
         # the corpus, 40 random decks and every broken deck run under the
         # line-coverage tracer (tracing every conversion would double the time)
         conv, records = run_deck(deck, args,
-                                 trace=k < len(corpus) + 40 or broken)
+                                 trace=k < len(corpus) + 40 or broken,
+                                 text=text)
         payload = {'deck': text, 'args': args, 'abstract': deck, 'meta': meta,
                    'fault': fault}
         res.seen(text, nontrivial=meta['n_elements'] > 1 or broken)
